@@ -84,8 +84,13 @@ func c09Gen(rt *rapid.T) wProg {
 			p.Ops = append(p.Ops, wOp{K: "set", S: s, T: topicFor(s), A: "mode", B: gPick(rt, []string{"JRWP", "JWP", "JRP", "JRWPS"}, "want")})
 		case x < 75:
 			p.Ops = append(p.Ops, wOp{K: "set", S: 0, T: "g0", A: "given", U: rapid.IntRange(1, 3).Draw(rt, "tgt"), B: gPick(rt, []string{"JRWPS", "JWP", "JRP"}, "given")})
-		case x < 80:
+		case x < 77:
 			p.Ops = append(p.Ops, wOp{K: "leave", S: s, T: topicFor(s), F: gPct(rt, 40)})
+		case x < 80:
+			// unsubscribe, then keep sending notes from the now detached session (recv is routed by the hub)
+			t := topicFor(s)
+			p.Ops = append(p.Ops, wOp{K: "leave", S: s, T: t, F: true},
+				wOp{K: "note", S: s, T: t, A: gPick(rt, []string{"recv", "recv", "read"}, "what"), N: rapid.IntRange(1, 4).Draw(rt, "seq")})
 		case x < 86:
 			p.Ops = append(p.Ops, wOp{K: "sub", S: s, T: topicFor(s)})
 		case x < 90:
